@@ -121,7 +121,7 @@ def check_draw(ctx, K, W):
         why = "likelihood_worker(%s) %s" % (A.unparse(c.args[0]) if c.args else "", "does not compute a / Ainv for this sample (a stale posterior mean from an earlier call is used)" if v != 1 else "does not dominate the draw within the iteration")
     ctx.check(R, d, "a and Ainv of THIS sample are computed before the draw", ok, why, key="worker")
     if lw:
-        between = [s for s in A.walk_local(fn) if isinstance(s, ast.stmt) and A.enclosing_stmt(lw[0]).lineno < s.lineno < A.enclosing_stmt(d).lineno]
+        between = [s for s in A.walk_local(fn) if isinstance(s, ast.stmt) and A.doc_index(lw[0]) < A.doc_index(s) < A.doc_index(d)]
         bad = []
         for s in between:
             for n in A.walk_local(s):
